@@ -1,0 +1,16 @@
+//go:build verif
+
+package secureservice
+
+import (
+	"github.com/anyproto/any-sync/commonspace/object/accountdata"
+	"github.com/anyproto/any-sync/net/secureservice/handshake"
+)
+
+// VerifNewCheckers builds the two credential checkers exactly the way
+// (*secureService).Init does (newNoVerifyChecker / newPeerSignVerifier), for
+// the external verification harness. It contains no logic of its own.
+func VerifNewCheckers(protoVersion uint32, compatibleVersions []uint32, clientVersion string, account *accountdata.AccountKeys) (noVerify, peerSign handshake.CredentialChecker) {
+	return newNoVerifyChecker(protoVersion, compatibleVersions, clientVersion),
+		newPeerSignVerifier(protoVersion, compatibleVersions, clientVersion, account)
+}
